@@ -82,7 +82,8 @@ fn pattern_for(n: usize) -> BoxedStrategy<Option<Vec<bool>>> {
 fn decoder_case() -> BoxedStrategy<Case> {
     // mostly up to 14 columns; a fifth up to 36, so that patterns of 7, 9, 11 and 12 blocks occur with
     // several block sizes (ratios of pattern length to kept blocks that are inexact in floating point)
-    prop_oneof![4 => decoder_matrix(8, 14), 1 => decoder_matrix(8, 36)]
+    // one case in 26: 250..=330 columns (lengths and indices beyond one byte)
+    prop_oneof![20 => decoder_matrix(8, 14).boxed(), 5 => decoder_matrix(8, 36).boxed(), 1 => decoder_matrix_range(6, 250, 330).boxed()]
         .prop_flat_map(|h| {
             let n = h.cols;
             let hh = h.clone();
@@ -120,7 +121,7 @@ fn decoder_case() -> BoxedStrategy<Case> {
 }
 
 fn encoder_case() -> BoxedStrategy<Case> {
-    (prop_oneof![4 => super::c02::strategy(12), 1 => super::c02::strategy(36)], any::<bool>(), any::<bool>())
+    (prop_oneof![20 => super::c02::strategy(12), 5 => super::c02::strategy(36), 1 => super::c02::large_strategy(Tier::Quick)], any::<bool>(), any::<bool>())
         .prop_flat_map(|(c, padded, via_file)| {
             let n = c.h.cols;
             let k = n - c.h.rows;
@@ -557,7 +558,7 @@ pub fn property() -> Property {
         id: "C19",
         subs: vec![Box::new(Sub {
             name: "c-api",
-            rule: "each case in a child process (abort isolation). Decoder handles: alist (own writer, padded or not, as text or as a file) of a C01-style matrix, one of the 36 names, pattern '' or a 0/1 list with >= one 1 whose length (up to 12) divides n (n up to 14, in a fifth of the cases up to 36), then 1..=8 decode calls (f64 or f32 buffers of the punctured length, output_len in 0..=n, limits incl. 0 and, for frames that a fresh Rust decoder converges on within 64 iterations, 10^6, 2^31-1, 2^31 and 2^32-1): return value = iterations / -1 and the output = leading bits of what a fresh Rust decoder returns for Puncturer::depuncture(llrs) (f32 widened); guard bytes behind the buffer untouched. Encoder handles: C02-style matrices, pattern, 1..=4 messages: output = punctured Encoder::encode; a singular tail must give null. One path used three times (file holds H1, is overwritten with H2, is deleted): the second handle decodes as the Rust decoder of H2, the third constructor returns null. Failing constructors: malformed alist texts (C08 generator, filtered to texts the Rust parser rejects), unknown names, malformed patterns, missing file, directory instead of file, singular tail, names / patterns that are not valid UTF-8 -> null. Non-trivial = decoder handle with >= 2 calls, encoder with a pattern, or a failing constructor; inner = decode calls",
+            rule: "each case in a child process (abort isolation). Decoder handles: alist (own writer, padded or not, as text or as a file) of a C01-style matrix, one of the 36 names, pattern '' or a 0/1 list with >= one 1 whose length (up to 12) divides n (n up to 14, in a fifth of the cases up to 36, one case in 26 with 250..=330 columns), then 1..=8 decode calls (f64 or f32 buffers of the punctured length, output_len in 0..=n, limits incl. 0 and, for frames that a fresh Rust decoder converges on within 64 iterations, 10^6, 2^31-1, 2^31 and 2^32-1): return value = iterations / -1 and the output = leading bits of what a fresh Rust decoder returns for Puncturer::depuncture(llrs) (f32 widened); guard bytes behind the buffer untouched. Encoder handles: C02-style matrices (one in 26 with 60..=140 rows or 200..=1100 message bits), pattern, 1..=4 messages: output = punctured Encoder::encode; a singular tail must give null. One path used three times (file holds H1, is overwritten with H2, is deleted): the second handle decodes as the Rust decoder of H2, the third constructor returns null. Failing constructors: malformed alist texts (C08 generator, filtered to texts the Rust parser rejects), unknown names, malformed patterns, missing file, directory instead of file, singular tail, names / patterns that are not valid UTF-8 -> null. Non-trivial = decoder handle with >= 2 calls, encoder with a pattern, or a failing constructor; inner = decode calls",
             cases: |t| t.pick(12_000, 400_000),
             strategy,
             check,
